@@ -125,6 +125,8 @@ func C01(p *core.Prog, rep *core.Report) {
 	v.vf2(func(fn *ssa.Function) bool { return core.RecvNamed(fn) == p.R.DB })
 	ps7SizeCheck(p, rep, false)
 	staleActive(p, rep)
+	poolReset(p, rep)
+	rt2(p, rep)
 	rep.Assumptions = append(rep.Assumptions, "two loads of one location (same field of the same object / same slice element) inside one function see the same value",
 		"dependency code (index containers) stores and returns the position it is given (checked separately for the three implementations under C14/C10)")
 	rep.NotCovered = append(rep.NotCovered, "byte equality of values for all lengths; chunk arithmetic (partially covered by C11's agreement rules); every operation sequence / configuration")
